@@ -85,6 +85,16 @@ func c20Atom(r *rand.Rand) *xnode {
 	case 5:
 		return &xnode{kind: "atom", text: `'c'`, dump: "char:99"}
 	case 6:
+		switch r.Intn(8) {
+		case 0:
+			return &xnode{kind: "atom", text: "0x1F", dump: "int:31"}
+		case 1:
+			return &xnode{kind: "atom", text: "0b11", dump: "int:3"}
+		case 2:
+			return &xnode{kind: "atom", text: "1e3", dump: fmt.Sprintf("float:%016x", math.Float64bits(1000))}
+		case 3:
+			return &xnode{kind: "atom", text: "2.", dump: fmt.Sprintf("float:%016x", math.Float64bits(2))}
+		}
 		return &xnode{kind: "atom", text: "1.5", dump: fmt.Sprintf("float:%016x", math.Float64bits(1.5))}
 	case 7:
 		t := pick(r, []string{"true", "false", "undefined"})
@@ -367,6 +377,50 @@ func (c *c20) treeOne(r *fw.Rec, rng *rand.Rand) {
 		detail["parsed_shape"] = got
 		r.Violate("a:shape", "source text is grouped differently from the documented precedence/associativity", detail)
 		return
+	}
+	// (d) on the same tree: its printed form parses to the same tree and compiles to the same code. These trees are
+	// syntactic (selectors, calls, indexes, spreads applied to every kind of literal), which the typed program
+	// generator of the round-trip family never writes.
+	var printed string
+	if perr := safely(func() error { printed = f.String(); return nil }); perr != nil {
+		p, _ := isPanic(perr)
+		detail["stack"] = trunc(p.stack, 2000)
+		r.Violate("d:printer-panic", "File.String() panicked", detail)
+		return
+	}
+	detail["printed"] = printed
+	f2, err := parseSrc([]byte(printed))
+	if err != nil {
+		detail["error"] = err.Error()
+		r.Violate("d:reparse", "the printed form of a parsed program does not parse", detail)
+		return
+	}
+	if b := astDump(f2); b != got {
+		detail["reparsed_shape"] = b
+		r.Violate("d:ast", "the printed form parses to a different tree", detail)
+		return
+	}
+	const decl = "a := 1; b := 2; c := 3; d := 4; e := 5; x := 6\n"
+	c1, e1 := compileRaw([]byte(decl+src), nil, nil)
+	c2, e2 := compileRaw([]byte(decl+printed), nil, nil)
+	if (e1 == nil) != (e2 == nil) {
+		detail["original_error"] = fmt.Sprint(e1)
+		detail["printed_error"] = fmt.Sprint(e2)
+		r.Violate("d:compile", "original and printed form compile differently", detail)
+		return
+	}
+	r.Inc("d:tree-roundtrips")
+	if e1 == nil {
+		i1 := strings.Join(c1.BC.FormatInstructions(), ";")
+		i2 := strings.Join(c2.BC.FormatInstructions(), ";")
+		k1, k2 := strings.Join(constSummary(c1.BC), "\n"), strings.Join(constSummary(c2.BC), "\n")
+		if i1 != i2 || k1 != k2 {
+			detail["original_instructions"] = i1
+			detail["printed_instructions"] = i2
+			r.Violate("d:bytecode", "original and printed form compile to different instructions or constants", detail)
+			return
+		}
+		r.Inc("d:tree-identical-bytecode")
 	}
 	if r.WantSample() && len(toks) > 8 && len(toks) < 40 {
 		r.Sample(map[string]interface{}{"family": "a", "source": src, "shape": got})
@@ -830,7 +884,7 @@ func (c *c20) RunCase(r *fw.Rec, cs fw.Case) {
 
 func (c *c20) Finish(m *fw.Merged, tier string) {
 	for _, k := range []string{"a:trees", "a:root:bin", "a:root:un", "a:root:cond", "b:layouts", "b:with-newline", "b:legal", "b:illegal(both rejected)",
-		"d:roundtrips", "d:identical-bytecode", "c:literals", "c:ref-accepts:int", "c:ref-accepts:float", "c:ref-accepts:char", "c:ref-accepts:string", "c:ref-rejects"} {
+		"d:roundtrips", "d:identical-bytecode", "d:tree-roundtrips", "d:tree-identical-bytecode", "c:literals", "c:ref-accepts:int", "c:ref-accepts:float", "c:ref-accepts:char", "c:ref-accepts:string", "c:ref-rejects"} {
 		if m.Counters[k] == 0 {
 			m.Fail("never observed: " + k)
 		}
